@@ -29,120 +29,145 @@ def analyse(check, proj, name):
             fails[(rule, key)] = text
     proved = {r: 0 for r in ("LIM-ZERO", "LIM-SIGN", "LIM-BOUND2", "LIM-BOUNDMAX", "LIM-SYM", "LIM-ODD", "LIM-CONSIST", "LIM-HOMOG")}
     und = []
-    for ri in range(nreg):
-        for regime in ("above", "below"):
-            A, it = lc.fresh()
-            rname, a, b, kind, s, lo, hi = regions(A)[ri]
-            lam = A.sym("lam", positive=True)
-            if kind == "same":
-                # regularised limiters switch off below a product threshold: two regimes
-                p = a * b
-                if regime == "above":
-                    A.assume_pos(p - THRESH)
-                else:
-                    A.assume_nonneg(A.const(THRESH) - p)
-            elif regime == "below":
-                continue
-            try:
-                v = lc.phi(A, it, a, b)
-                vs = lc.phi(A, it, b, a)
-                vo = lc.phi(A, it, -a, -b)
-            except AnalysisError as e:
-                und.append("%s: %s" % (rname, e))
-                continue
-            if A.atoms_of(v, "ind"):
-                und.append("%s [%s]: selection not resolved (%s)" % (rname, regime, A.show(v, 100)))
-                continue
-            where = "%s%s" % (rname, "" if kind != "same" else (" (product above the regularisation threshold)" if regime == "above" else " (product below the threshold)"))
-            # symmetry and oddness: ring identities
-            if A.equal(v, vs):
-                proved["LIM-SYM"] += 1
-            else:
-                bad("LIM-SYM", "phi(a,b) != phi(b,a) in region %s: %s vs %s" % (where, A.show(v, 80), A.show(vs, 80)), "sym")
-            if A.equal(vo, -v):
-                proved["LIM-ODD"] += 1
-            else:
-                bad("LIM-ODD", "phi(-a,-b) != -phi(a,b) in region %s: %s vs %s" % (where, A.show(vo, 80), A.show(-v, 80)), "odd")
-            if kind == "zero":
-                if v.is_zero():
-                    proved["LIM-ZERO"] += 1
-                else:
-                    bad("LIM-ZERO", "phi = %s in region %s (must be 0 when the slopes have opposite signs or one vanishes)" % (A.show(v, 100), where), "zero")
-                continue
-            if regime == "below":
-                # statement allows 0 for tiny same-sign products; anything else must still obey the bounds
-                if v.is_zero():
-                    proved["LIM-ZERO"] += 1
-                    continue
-            sv = v * s
-            ok, sg = nonneg(A, sv)
-            if ok:
-                proved["LIM-SIGN"] += 1
-            elif sg is None:
-                und.append("%s: sign of phi not established" % where)
-            else:
-                bad("LIM-SIGN", "phi = %s has the sign opposite to its arguments in region %s" % (A.show(v, 100), where), "sign")
-            for rule, bound, txt in (("LIM-BOUND2", 2 * lo, "2*min(|a|,|b|)"), ("LIM-BOUNDMAX", hi, "max(|a|,|b|)")):
-                ok, sg = nonneg(A, bound - sv)
-                if ok:
-                    proved[rule] += 1
-                elif sg in ("-", "<=0"):
-                    bad(rule, "|phi| = %s exceeds %s = %s everywhere in region %s" % (A.show(sv, 100), txt, A.show(bound, 60), where), rule)
-                else:
-                    st, info = A.decide_equal(A.maximum(bound - sv, A.const(0)), bound - sv)
-                    if st == "refuted":
-                        bad(rule, "|phi| = %s exceeds %s in region %s, e.g. at %s" % (A.show(sv, 100), txt, where, info.get("point")), rule)
+    import itertools
+    policies = [()]
+    pi = 0
+    while pi < len(policies):
+        lc.policy = policies[pi]
+        single_only = pi > 0
+        pi += 1
+        for ri in range(nreg):
+            for regime in ("above", "below"):
+                A, it = lc.fresh()
+                rname, a, b, kind, s, lo, hi = regions(A)[ri]
+                lam = A.sym("lam", positive=True)
+                if kind == "same":
+                    # regularised limiters switch off below a product threshold: two regimes
+                    p = a * b
+                    if regime == "above":
+                        A.assume_pos(p - THRESH)
                     else:
-                        und.append("%s: %s - |phi| = %s: no sign certificate" % (where, txt, A.show(bound - sv, 120)))
-            # homogeneity (exact for the order-based limiters)
-            is_rational = bool(v.den) or any(len(m) != 1 for m in v.num) and False
-            if v.den:
-                rational = True
-            try:
-                vh = lc.phi(A, it, lam * a, lam * b) if regime == "above" and not v.den else None
-            except AnalysisError:
-                vh = None
-            if vh is not None and not A.atoms_of(vh, "ind"):
-                if A.equal(vh, lam * v):
-                    proved["LIM-HOMOG"] += 1
+                        A.assume_nonneg(A.const(THRESH) - p)
+                elif regime == "below":
+                    continue
+                try:
+                    v = lc.phi(A, it, a, b)
+                    vpath, nfree = lc.path, lc.free_used
+                    vs = lc.phi(A, it, b, a)
+                    nfree += lc.free_used
+                    vo = lc.phi(A, it, -a, -b)
+                    nfree += lc.free_used
+                except AnalysisError as e:
+                    und.append("%s: %s" % (rname, e))
+                    continue
+                # clauses that compare two evaluations are decided only when no reduction outcome was
+                # free (the array contexts of the two evaluations differ); single-evaluation clauses are
+                # decided on every path
+                multi = nfree == 0 and not single_only
+                if A.atoms_of(v, "ind"):
+                    und.append("%s [%s]: selection not resolved (%s)" % (rname, regime, A.show(v, 100)))
+                    continue
+                where = "%s%s" % (rname, "" if kind != "same" else (" (product above the regularisation threshold)" if regime == "above" else " (product below the threshold)"))
+                if vpath:
+                    where += " [entry of an array on which%s]" % vpath
+                # symmetry and oddness: ring identities
+                if not multi:
+                    pass
+                elif A.equal(v, vs):
+                    proved["LIM-SYM"] += 1
                 else:
-                    bad("LIM-HOMOG", "phi(lam*a, lam*b) != lam*phi(a,b) in region %s" % where, "homog")
-            # consistency on the diagonal
-            if rname.endswith("|a| = |b|"):
-                dev = a * s - sv          # |a| - |phi|
-                if dev.is_zero():
-                    proved["LIM-CONSIST"] += 1
+                    bad("LIM-SYM", "phi(a,b) != phi(b,a) in region %s: %s vs %s" % (where, A.show(v, 80), A.show(vs, 80)), "sym")
+                if not multi:
+                    pass
+                elif A.equal(vo, -v):
+                    proved["LIM-ODD"] += 1
                 else:
-                    # phi = a*(1 - delta): 0 <= delta and (delta <= 1e-20/a^2 or delta <= 2^-53 [not representable])
-                    x = a * s
-                    ok0, _ = nonneg(A, dev)
-                    okA, _ = nonneg(A, A.const(Fraction("1e-20")) - x * dev)
-                    if ok0 and okA:
+                    bad("LIM-ODD", "phi(-a,-b) != -phi(a,b) in region %s: %s vs %s" % (where, A.show(vo, 80), A.show(-v, 80)), "odd")
+                if kind == "zero":
+                    if v.is_zero():
+                        proved["LIM-ZERO"] += 1
+                    else:
+                        bad("LIM-ZERO", "phi = %s in region %s (must be 0 when the slopes have opposite signs or one vanishes)" % (A.show(v, 100), where), "zero")
+                    continue
+                if regime == "below":
+                    # statement allows 0 for tiny same-sign products; anything else must still obey the bounds
+                    if v.is_zero():
+                        proved["LIM-ZERO"] += 1
+                        continue
+                sv = v * s
+                ok, sg = nonneg(A, sv)
+                if ok:
+                    proved["LIM-SIGN"] += 1
+                elif sg is None:
+                    und.append("%s: sign of phi not established" % where)
+                else:
+                    bad("LIM-SIGN", "phi = %s has the sign opposite to its arguments in region %s" % (A.show(v, 100), where), "sign")
+                for rule, bound, txt in (("LIM-BOUND2", 2 * lo, "2*min(|a|,|b|)"), ("LIM-BOUNDMAX", hi, "max(|a|,|b|)")):
+                    ok, sg = nonneg(A, bound - sv)
+                    if ok:
+                        proved[rule] += 1
+                    elif sg in ("-", "<=0"):
+                        bad(rule, "|phi| = %s exceeds %s = %s everywhere in region %s" % (A.show(sv, 100), txt, A.show(bound, 60), where), rule)
+                    else:
+                        st, info = A.decide_equal(A.maximum(bound - sv, A.const(0)), bound - sv)
+                        if st == "refuted":
+                            bad(rule, "|phi| = %s exceeds %s in region %s, e.g. at %s" % (A.show(sv, 100), txt, where, info.get("point")), rule)
+                        else:
+                            und.append("%s: %s - |phi| = %s: no sign certificate" % (where, txt, A.show(bound - sv, 120)))
+                # homogeneity (exact for the order-based limiters)
+                is_rational = bool(v.den) or any(len(m) != 1 for m in v.num) and False
+                if v.den:
+                    rational = True
+                try:
+                    vh = lc.phi(A, it, lam * a, lam * b) if multi and regime == "above" and not v.den else None
+                except AnalysisError:
+                    vh = None
+                if vh is not None and not A.atoms_of(vh, "ind"):
+                    if A.equal(vh, lam * v):
+                        proved["LIM-HOMOG"] += 1
+                    else:
+                        bad("LIM-HOMOG", "phi(lam*a, lam*b) != lam*phi(a,b) in region %s" % where, "homog")
+                # consistency on the diagonal
+                if multi and rname.endswith("|a| = |b|"):
+                    dev = a * s - sv          # |a| - |phi|
+                    if dev.is_zero():
                         proved["LIM-CONSIST"] += 1
                     else:
-                        # split at |a| = 1
-                        okall = ok0
-                        for side in ("small", "large"):
-                            A2, it2 = lc.fresh()
-                            t = A2.sym("t", positive=True)
-                            xx = (1 / (1 + t)) if side == "small" else (1 + t)
-                            aa = xx * s
-                            A2.assume_pos(aa * aa - THRESH)
-                            try:
-                                v2 = lc.phi(A2, it2, aa, aa) * s
-                            except AnalysisError:
-                                okall = False
-                                continue
-                            d2 = xx - v2
-                            if side == "small":
-                                o, _ = nonneg(A2, A2.const(Fraction("1e-20")) - xx * d2)
-                            else:
-                                o, _ = nonneg(A2, A2.const(EPS53) * xx - d2)
-                            okall = okall and o
-                        if okall:
+                        # phi = a*(1 - delta): 0 <= delta and (delta <= 1e-20/a^2 or delta <= 2^-53 [not representable])
+                        x = a * s
+                        ok0, _ = nonneg(A, dev)
+                        okA, _ = nonneg(A, A.const(Fraction("1e-20")) - x * dev)
+                        if ok0 and okA:
                             proved["LIM-CONSIST"] += 1
                         else:
-                            bad("LIM-CONSIST", "phi(a,a) = %s deviates from a by more than the relative 1e-20/a^2 of the statement (and more than half an ulp) in region %s" % (A.show(v, 100), where), "consist")
+                            # split at |a| = 1
+                            okall = ok0
+                            for side in ("small", "large"):
+                                A2, it2 = lc.fresh()
+                                t = A2.sym("t", positive=True)
+                                xx = (1 / (1 + t)) if side == "small" else (1 + t)
+                                aa = xx * s
+                                A2.assume_pos(aa * aa - THRESH)
+                                try:
+                                    v2 = lc.phi(A2, it2, aa, aa) * s
+                                except AnalysisError:
+                                    okall = False
+                                    continue
+                                d2 = xx - v2
+                                if side == "small":
+                                    o, _ = nonneg(A2, A2.const(Fraction("1e-20")) - xx * d2)
+                                else:
+                                    o, _ = nonneg(A2, A2.const(EPS53) * xx - d2)
+                                okall = okall and o
+                            if okall:
+                                proved["LIM-CONSIST"] += 1
+                            else:
+                                bad("LIM-CONSIST", "phi(a,a) = %s deviates from a by more than the relative 1e-20/a^2 of the statement (and more than half an ulp) in region %s" % (A.show(v, 100), where), "consist")
+        if pi == 1 and lc.max_free:
+            if lc.max_free > 4:
+                raise AnalysisError("%s: more than 4 free reduction outcomes on a path" % q)
+            policies += [pl for pl in itertools.product((True, False), repeat=lc.max_free) if not all(pl)]
+    check.inventory["%s reduction paths" % name] = len(policies)
     for (rule, key), text in fails.items():
         check.violation(rule, q, text, loc, key=key)
     for rule, n in proved.items():
@@ -150,7 +175,10 @@ def analyse(check, proj, name):
             check.ok(rule, q, "holds in all %d applicable region/regime combinations of the exhaustive partition of the (a,b) plane" % n, loc)
     for u in und[:4]:
         check.undecided("LIM-REGION", q, u, loc)
-    check.ok("LIM-ELEMENTWISE", q, "body uses element-wise operations only (abstract interpretation point-wise, no reduction or Python branch on an array)", loc, nontrivial=False)
+    if len(policies) == 1:
+        check.ok("LIM-ELEMENTWISE", q, "body uses element-wise operations only (abstract interpretation point-wise, no reduction or Python branch on an array)", loc, nontrivial=False)
+    elif not any(r in ("LIM-ZERO", "LIM-SIGN", "LIM-BOUND2", "LIM-BOUNDMAX") for (r, k) in fails):
+        check.ok("LIM-ELEMENTWISE", q, "np.all / np.any are used as branch conditions only; the single-entry clauses hold on all %d outcome paths (any array context)" % len(policies), loc)
 
 
 def overflow(check, proj, name, tier):
